@@ -6,6 +6,7 @@ import CruxVerif.Lemmas.Resolve
 import CruxVerif.Lemmas.Bridge
 import CruxVerif.Lemmas.Deliver
 import CruxVerif.Lemmas.K2
+import CruxVerif.Lemmas.Refs
 namespace Props.C02
 open M.Rt
 
@@ -96,9 +97,47 @@ theorem stream_items_consumed_in_order (pn : Waker → Nat → World → Option 
         (w.modLeaf l fun lf => { lf with queue := q }) :=
   poll_stream_binds_value pn f wk sink env x l count limit body rest w v q hq hlim
 
+/-- NO ALIASING, one poll: if before a poll of a host-free block every request channel is referenced at most once by the
+    block and the tasks waiting in its spawn queue (and none of them mentions a channel that does not exist yet), then the
+    same holds afterwards for the continuation and the spawn queue — including the requests created and the tasks spawned
+    during the poll (`handoff` gives a new request to exactly one new task). Any fuel, any world. -/
+theorem poll_keeps_channels_unshared (pn : Waker → Nat → World → Option (NextRes × World)) (f : Nat) (wk : Waker)
+    (sink : Sink) (b : Block) (w : World) (r : PollRes) (w' : World)
+    (h : pollBlock pn f wk sink b w = some (r, w')) (hf : hostFreeB b = true)
+    (hone : ∀ l, (refsB b).count l + (spawnRefs sink w).count l ≤ 1)
+    (hex : ∀ l, w.leaves.length ≤ l → (refsB b).count l + (spawnRefs sink w).count l = 0) :
+    ∀ l, (resRefs r).count l + (spawnRefs sink w').count l ≤ 1 := by
+  intro l
+  have hle := (pollBlock_linear pn f wk sink b w r w' h hf).cnt l
+  unfold fresh at hle
+  by_cases hl : w.leaves.length ≤ l
+  · have := hex l hl
+    split at hle <;> omega
+  · have := hone l
+    have : ¬ (w.leaves.length ≤ l ∧ l < w'.leaves.length) := fun c => hl c.1
+    simp only [this, if_false] at hle
+    omega
+
+/-- … and a poll never makes a task (or a task it spawns) wait on an EXISTING request it did not already wait on: a channel
+    of another task stays the other task's alone. -/
+theorem poll_never_adopts_foreign_channel (pn : Waker → Nat → World → Option (NextRes × World)) (f : Nat) (wk : Waker)
+    (sink : Sink) (b : Block) (w : World) (r : PollRes) (w' : World)
+    (h : pollBlock pn f wk sink b w = some (r, w')) (hf : hostFreeB b = true) (l : Nat) (hl : l < w.leaves.length)
+    (hnot : l ∉ refsB b) (hnots : l ∉ spawnRefs sink w) : l ∉ resRefs r ∧ l ∉ spawnRefs sink w' := by
+  have hle := (pollBlock_linear pn f wk sink b w r w' h hf).cnt l
+  have h1 : (refsB b).count l = 0 := List.count_eq_zero_of_not_mem hnot
+  have h2 : (spawnRefs sink w).count l = 0 := List.count_eq_zero_of_not_mem hnots
+  have h3 : fresh w w' l = 0 := by unfold fresh; rw [if_neg]; intro c; omega
+  rw [h1, h2, h3] at hle
+  constructor
+  · intro hm; have := List.count_pos_iff.mpr hm; omega
+  · intro hm; have := List.count_pos_iff.mpr hm; omega
+
 /-! Not proved here: over whole runs, that the values received by the task that issued request `r` are exactly those
     resolved on `r` and no other task receives them. That is the global invariant "leaf ids held by live blocks are
-    pairwise distinct", of which `delivery_channel_private` is the allocation step; it is covered by the correspondence
+    pairwise distinct", of which `delivery_channel_private` is the allocation step and `poll_keeps_channels_unshared` /
+    `poll_never_adopts_foreign_channel` the poll step (host-free blocks); lifting them over whole runs — nested commands,
+    every task of every command — is not done; it is covered by the correspondence
     check (unique payloads, look-alike operations) and listed under `stated_not_proved` in the evidence. -/
 
 example : (resolveReq (.once 0) 5 { leaves := [{}] }).2.1 = .ok := by decide
